@@ -178,6 +178,8 @@ def run_sharded(fn: Callable, ctx: Ctx, nshards: int | None = None, extra: tuple
             total.merge(_run_shard((fn, ctx, s, nshards, extra)))
         return total
     mp = multiprocessing.get_context("fork")
+    if "vf.tools" in sys.modules:  # no worker inherits a live event loop (see vf/tools.py:_run)
+        sys.modules["vf.tools"].close_loop()
     with mp.Pool(min(ctx.workers, nshards)) as pool:
         for st in pool.imap_unordered(_run_shard, [(fn, ctx, s, nshards, extra) for s in range(nshards)]):
             total.merge(st)
